@@ -217,7 +217,7 @@ func generate() {
 	}
 	// BinMaxPeers = 0 keeps whatever the package variables hold at that moment
 	// (the defaults in a fresh process, later the values of the previous New).
-	plans := []plan{{0, run.N(6, 40)}, {5, run.N(70, 900)}, {0, run.N(10, 100)}, {10, run.N(25, 300)}, {7, run.N(10, 100)}, {20, run.N(4, 60)}, {5, run.N(40, 600)}}
+	plans := []plan{{0, run.N(4, 40)}, {5, run.N(45, 900)}, {0, run.N(6, 100)}, {10, run.N(14, 300)}, {7, run.N(6, 100)}, {20, run.N(3, 60)}, {5, run.N(25, 600)}}
 	cur := 20
 	for _, pl := range plans {
 		if pl.binMax > 0 {
